@@ -140,6 +140,11 @@ func c13Rules(tier string) []Rule {
 			return rs
 		}},
 		MPT{ID: "C13.MPT3", Fn: "(*sched.NodeClaim).FinalizeScheduling", Ret: core.RetAny, Gates: gates(G(`instr:^call \(\*sched\.NodeClaim\)\.addDaemonRequests\(\$0\)$`))},
+		// the labels / annotations of one launch request never leak into the next: ToNodeClaim and NewNodeClaim write only
+		// into maps they created (the template's maps are shared by every NodeClaim opened from the same NodePool)
+		core.Custom{ID: "C13.WSET1", Kind: "WSET", Run: func(w *core.World, id string) []core.Result {
+			return core.FreshMapUpdates(w, id, "WSET", "(*sched.NodeClaimTemplate).ToNodeClaim", 2, "ToNodeClaim writes labels and annotations into fresh maps only")
+		}},
 		POST{ID: "C13.POST2", Fn: "(*sched.Scheduler).Solve", FromLit: `+^\(phi\(-1\|\(phi↺ \+ 1\)\) \+ 1\) < len\(\$0\.newNodeClaims\)$`,
 			Must: []string{`^call \(\*sched\.NodeClaim\)\.FinalizeScheduling\(\$0\.newNodeClaims\[`}, Note: "every new claim is finalized before results are returned"},
 		core.Custom{ID: "C13.PROV7", Kind: "PROV", Run: func(w *core.World, id string) []core.Result {
